@@ -97,6 +97,10 @@ impl CopyHandle {
 
         while pos < len {
             let (next_data, next_hole) = next_sparse_segments(&self.infd, &self.outfd, pos)?;
+            if next_hole <= pos || next_hole < next_data {
+                // The source shrank while being copied; do not spin.
+                return Err(XcpError::CopyError("Source file ended prematurely.".to_string()).into());
+            }
 
             let _written = self.copy_bytes(next_hole - next_data, updates)?;
             pos = next_hole;
